@@ -436,7 +436,10 @@ func checkCase(c Case, r *vh.R, sub string) {
 				hi = a
 			}
 		}
-		tol := uint64(64<<10) + uint64(size)
+		// Tolerance: staging buffers of a chunked reader (a few pieces of 32 or 64 KiB, possibly taken
+		// from a pool by one family member and found there by the next) are a constant, not trust in
+		// the declared value; 64 KiB proved too tight for a legitimate pooled 2 x 32 KiB reader.
+		tol := uint64(256<<10) + uint64(size)
 		if strings.HasPrefix(c.Target, "signedexchange.") {
 			tol += 34 << 20
 		}
